@@ -21,3 +21,16 @@ pub fn block_on_ready<F: Future>(fut: F) -> F::Output {
     }
     panic!("verif/harness: block_on_ready: future stayed pending");
 }
+
+/// poll `fut` a few times; None = it is waiting for input that is not there (the future is dropped)
+pub fn poll_once<F: Future>(fut: F) -> Option<F::Output> {
+    let waker = Waker::from(Arc::new(Noop));
+    let mut cx = Context::from_waker(&waker);
+    let mut fut = Box::pin(fut);
+    for _ in 0..4 {
+        if let Poll::Ready(x) = fut.as_mut().poll(&mut cx) {
+            return Some(x);
+        }
+    }
+    None
+}
